@@ -9,7 +9,7 @@ Contract between script, harness and table:
   * a harness that dies (sanitizer report, signal) stops writing; the runner then closes the table with
     a {"op":"Crash",...} line, which no checking spec accepts.
 A rejection is reported only after it repeated on a fresh harness run of that single case."""
-import json, os, re, subprocess
+import json, os, re, shutil, subprocess, time
 from concurrent.futures import ThreadPoolExecutor
 from . import core
 from .core import MachineryError
@@ -23,10 +23,20 @@ def write_lines(path, lines):
             f.write((l if isinstance(l, str) else json.dumps(l, separators=(",", ":"))) + "\n")
 
 
-def run_harness(ctx, drv, script_path, table_path, argv=(), timeout=1800):
+def harness_timeout(ctx):
+    """Wall-clock backstop for one harness run (the drivers end a call that does not return themselves, after
+    5 s of CPU time per script line); a run that hits it is closed with a Crash line like any other death."""
+    return 300 if ctx.quick else 1200
+
+
+def run_harness(ctx, drv, script_path, table_path, argv=(), timeout=None):
     """script -> table.  Returns dict(rc, stderr, lines_out, crashed)."""
+    timeout = timeout or harness_timeout(ctx)
     env = dict(os.environ)
     env.update(core.ASAN_ENV)
+    # unbounded recursion in the code under test must end at the stack limit (a Crash line), not in the OOM killer:
+    # no fake (heap-allocated) stack frames, and a hard limit on the resident set as a safety net
+    env["ASAN_OPTIONS"] = env["ASAN_OPTIONS"].replace("detect_stack_use_after_return=1", "detect_stack_use_after_return=0") + ":hard_rss_limit_mb=4096"
     with open(script_path) as fin, open(table_path, "wb") as fout:
         try:
             p = subprocess.run([drv] + list(argv), stdin=fin, stdout=fout, stderr=subprocess.PIPE, env=env, timeout=timeout)
@@ -43,18 +53,23 @@ def run_harness(ctx, drv, script_path, table_path, argv=(), timeout=1800):
     tail = complete.pop()          # text after the last newline: a partial line, dropped
     lines = []
     crashed = False
+    said = ""
     for l in complete:
         if not l.strip():
             continue
         if l.startswith('{"op":"Crash"'):
             crashed = True
+            try:
+                said = " (%s)" % json.loads(l).get("why", "")
+            except ValueError:
+                pass
             break
         lines.append(l)
     if len(lines) >= nscript and not crashed and rc != 0:
         raise MachineryError("harness %s printed all %d lines but ended with status %s: %s" % (drv, nscript, rc, err[-1500:]))
     if len(lines) < nscript or crashed:
         crashed = True
-        why = "harness ended with status %s after %d of %d lines" % (rc, len(lines), nscript)
+        why = "harness ended with status %s after %d of %d lines%s" % (rc, len(lines), nscript, said)
         lines = lines[:nscript - 1]
         lines.append(json.dumps({"op": "Crash", "why": why, "c": [[0]]}, separators=(",", ":")))
     write_lines(table_path, lines)
@@ -83,14 +98,25 @@ def count_cases(table_path):
     return n, per
 
 
-def check_table(ctx, module, cfg, table_path, name=None, timeout=1500, heap="6g", env=None):
+def check_table(ctx, module, cfg, table_path, name=None, timeout=1500, heap="3g", env=None):
     """TLC over one table.  Returns dict(accepted, total, matched, reject=None|{l, j, expected})."""
     total, per = count_cases(table_path)
     e = {"TRACE": table_path}
     if env:
         e.update(env)
-    r = core.tlc(ctx, module, cfg, name=name or ("tab-" + os.path.basename(table_path)), workers=1,
-                 timeout=timeout, env=e, heap=heap)
+    r = None
+    for attempt in (1, 2, 3):
+        try:
+            r = core.tlc(ctx, module, cfg, name=(name or ("tab-" + os.path.basename(table_path))) + ("" if attempt == 1 else ".retry%d" % attempt),
+                         workers=1, timeout=timeout, env=e, heap=heap)
+            break
+        except MachineryError as x:
+            # a JVM killed from outside (rc -9 / 137: the kernel's OOM killer on a shared machine) says nothing about the table
+            if attempt < 3 and re.search(r"rc=(-9|137)\b", str(x)):
+                ctx.log("TLC was killed from outside (%s); trying again" % str(x)[:80])
+                time.sleep(20 * attempt)
+                continue
+            raise
     if r["rc"] != 0 or r["violated"]:
         raise MachineryError("table check %s failed (rc=%s), see %s\n%s" % (module, r["rc"], r["outfile"], r["out"][-2000:]))
     matched = max(0, r["depth"] - 1) if total else 0
@@ -118,8 +144,53 @@ def single_case(line, j):
 
 
 class Job:
-    def __init__(self, name, drv, lines, argv=()):
-        self.name, self.drv, self.lines, self.argv = name, drv, lines, list(argv)
+    def __init__(self, name, drv, lines, argv=(), bld=None):
+        """bld: name of the build flavour of drv; it is written into every script line (key "bld", ignored by the
+        drivers and the checking specs) so that a replay file names the build it was recorded with."""
+        if bld:
+            lines = [dict(l, bld=bld) for l in lines]
+        self.name, self.drv, self.lines, self.argv, self.bld = name, drv, lines, list(argv), bld
+
+
+class Flavour:
+    """One way of compiling a driver: a configuration axis of the property (compiler, optimisation level,
+    signedness of plain char, ...)."""
+    def __init__(self, name, cxx=None, flags=(), asan=True):
+        self.name, self.cxx, self.flags, self.asan = name, cxx, list(flags), asan
+
+
+def build_driver(ctx, pid, src, out, probe, flags=(), flavour=None):
+    """Build a conformance driver.  If it does not compile, compile the interface probe (the calls exactly as the
+    property statement / the upstream test write them) with the same compiler: if that fails too, the property's
+    functions cannot be called as stated - a VIOLATION whose replay is the probe; otherwise the driver is at fault
+    (machinery error).  Returns the path of the binary, or None after a violation."""
+    fl = flavour or Flavour("default")
+    try:
+        return core.build(ctx, src, out, flags=list(flags) + fl.flags, asan=fl.asan, cxx=fl.cxx)
+    except MachineryError as e:
+        cmd = [fl.cxx or core.CXX] + core.BASE_FLAGS + ["-I", core.INCLUDE, "-I", os.path.join(core.HARNESS, "common"), probe, "-o", out + ".probe"]
+        rc, o = core.sh(cmd, timeout=600)
+        if rc == 0:
+            raise MachineryError("the interface probe %s compiles but the driver does not: %s" % (os.path.basename(probe), str(e)[-3000:]))
+        os.makedirs(ctx.replays, exist_ok=True)
+        rp = os.path.join(ctx.replays, "api_probe_%s.cpp" % fl.name)
+        shutil.copyfile(probe, rp)
+        errs = [l.strip() for l in o.splitlines() if "error" in l][:4]
+        ctx.violation("%s: the functions of the property cannot be called as the statement (and the upstream test) call them [%s]: %s"
+                      % (pid, " ".join(cmd[:1] + fl.flags), " | ".join(errs)[:1200]), replay_path=rp)
+        return None
+
+
+def replay_probe(ctx, path, pid):
+    """./verif replay <ID> <replays/.../api_probe_*.cpp>"""
+    cmd = [core.CXX] + core.BASE_FLAGS + ["-I", core.INCLUDE, "-I", os.path.join(core.HARNESS, "common"), path, "-o", os.path.join(ctx.work, "probe.bin")]
+    rc, o = core.sh(cmd, timeout=600)
+    if rc == 0:
+        print("replay accepted: the interface probe compiles")
+        return 0
+    print("VIOLATION property=%s replay=%s" % (pid, path))
+    print("  " + "\n  ".join([l for l in o.splitlines() if "error" in l][:5]))
+    return 1
 
 
 MAX_CONFIRM = 6        # rejections confirmed (re-run alone) and reported per validate() call; the rest are only counted
@@ -146,12 +217,12 @@ def validate(ctx, module, cfg, jobs, describe=None, classify=None, max_restarts=
     when classify(single_line) returns a key).  Returns the number of accepted cases."""
     tdir = ctx.sub("tables")
     accepted_cases = [0]
-    problems = []        # (job, single script line, text)
 
     def one(job):
         lines = job.lines
         attempt = 0
         out = []
+        problems = []
         while lines and attempt <= max_restarts:
             tag = job.name if attempt == 0 else "%s.rest%d" % (job.name, attempt)
             sp, tp = os.path.join(tdir, tag + ".script"), os.path.join(tdir, tag + ".ndjson")
@@ -165,13 +236,17 @@ def validate(ctx, module, cfg, jobs, describe=None, classify=None, max_restarts=
             sline = lines[l - 1]
             with open(tp) as f:
                 tline = json.loads([x for x in f if x.strip()][l - 1])
-            problems.append((job, sline, j - 1, tline, r["reject"]["expected"], h))
+            problems.append((job, sline, j - 1, tline, r["reject"]["expected"], h, lines[:l]))
             lines = lines[l:]            # continue after the offending script line
             attempt += 1
-        return out
+        return out, problems
 
+    groups = {}          # (family of the job, op, crashed?) -> rejected cases, in job order
     with ThreadPoolExecutor(max_workers=_parallel(parallel or max(1, core.NCPU // 2))) as ex:
-        for job, outs in zip(jobs, ex.map(one, jobs)):
+        for job, (outs, probs) in zip(jobs, ex.map(one, jobs)):
+            for pr in probs:
+                fam = re.sub(r"-\d+$", "", job.name)
+                groups.setdefault((fam, pr[1].get("op"), pr[3].get("op") == "Crash"), []).append(pr)
             for n, drift in outs:
                 accepted_cases[0] += n
                 for d in drift:
@@ -179,12 +254,18 @@ def validate(ctx, module, cfg, jobs, describe=None, classify=None, max_restarts=
                     if note not in ctx.drift and len(ctx.drift) < 10:
                         ctx.drift.append(note)
 
-    # ---- confirm rejections on a fresh run of the single case (the first MAX_CONFIRM; a broken function
-    #      fails in every table, and each confirmation costs a harness run and a TLC run)
+    # ---- confirm rejections on a fresh run of the single case (MAX_CONFIRM of them; a broken function
+    #      fails in every table, and each confirmation costs a harness run and a TLC run).  They are taken
+    #      round-robin over (script family, operation, crash or wrong result), in job order: a crash in one
+    #      family must not crowd out a wrong result in another, and the choice must not depend on thread timing
+    problems, k = [], 0
+    while any(len(g) > k for g in groups.values()):
+        problems += [g[k] for g in groups.values() if len(g) > k]
+        k += 1
     if len(problems) > MAX_CONFIRM:
         ctx.notes["rejections_not_examined"] = len(problems) - MAX_CONFIRM
         ctx.log("%d further rejected cases were not re-run (first %d are reported)" % (len(problems) - MAX_CONFIRM, MAX_CONFIRM))
-    for n, (job, sline, j, tline, expected, h) in enumerate(problems[:MAX_CONFIRM]):
+    for n, (job, sline, j, tline, expected, h, history) in enumerate(problems[:MAX_CONFIRM]):
         if tline.get("op") == "Crash":
             # the harness died somewhere inside script line sline: run its cases one per line
             singles = [single_case(sline, k) for k in range(len(sline["c"]))]
@@ -195,8 +276,28 @@ def validate(ctx, module, cfg, jobs, describe=None, classify=None, max_restarts=
         h2 = run_harness(ctx, job.drv, sp, tp, job.argv)
         r2 = check_table(ctx, module, cfg, tp, name="confirm-%d" % n, env=env)
         if r2["accepted"]:
-            raise MachineryError("non-reproducible rejection in %s (script line %s): accepted when re-run alone" % (
-                job.name, json.dumps(sline)[:300]))
+            # accepted alone: the functions are meant to be pure, so a result that depends on the calls made before
+            # it is itself a violation - provided it repeats when the same calls are made again in a fresh process
+            sp, tp = os.path.join(tdir, "confirm-%d-history.script" % n), os.path.join(tdir, "confirm-%d-history.ndjson" % n)
+            write_lines(sp, history)
+            h2 = run_harness(ctx, job.drv, sp, tp, job.argv)
+            r2 = check_table(ctx, module, cfg, tp, name="confirm-%d-history" % n, env=env)
+            if r2["accepted"] or r2["reject"]["l"] != len(history):
+                raise MachineryError("non-reproducible rejection in %s (script line %s): accepted when re-run alone and when re-run "
+                                     "after the %d lines before it" % (job.name, json.dumps(sline)[:300], len(history) - 1))
+            with open(tp) as f:
+                observed = [x for x in f if x.strip()][len(history) - 1].strip()
+            try:
+                observed = json.dumps(single_case(json.loads(observed), r2["reject"]["j"] - 1), separators=(",", ":"))
+            except (ValueError, KeyError, IndexError):
+                pass
+            text = "%s rejects recorded case %d of %s ONLY AFTER the %d script lines before it (accepted when the case is run alone: the " \
+                   "result depends on earlier calls) ; L1 expected: %s" % (module, r2["reject"]["j"], observed[:700], len(history) - 1,
+                                                                         r2["reject"]["expected"][:1000])
+            if describe:
+                text = describe(single_case(sline, j)) + " :: " + text
+            ctx.violation(text, replay_lines=[json.dumps(x, separators=(",", ":")) for x in history])
+            continue
         bad = singles[r2["reject"]["l"] - 1]
         if "precondition" in r2["reject"]["expected"]:
             raise MachineryError("%s: the generator/harness left the contract (%s) on %s" % (
@@ -223,7 +324,18 @@ def validate(ctx, module, cfg, jobs, describe=None, classify=None, max_restarts=
 
 
 def replay(ctx, path, module, cfg, drv, argv=(), pid="?"):
+    """drv: path of the driver, or a function (build flavour name or None) -> path"""
+    if path.endswith(".cpp"):
+        return replay_probe(ctx, path, pid)
     lines = [l for l in core.read_ndjson(path) if "_meta" not in l]
+    if callable(drv):
+        blds = {l.get("bld") for l in lines}
+        if len(blds) > 1:
+            raise MachineryError("replay file %s mixes build flavours %s" % (path, sorted(map(str, blds))))
+        drv = drv(blds.pop() if blds else None)
+        if drv is None:
+            print("VIOLATION property=%s replay=%s\n  the driver does not build (see above)" % (pid, path))
+            return 1
     sp, tp = os.path.join(ctx.work, "replay.script"), os.path.join(ctx.work, "replay.ndjson")
     write_lines(sp, lines)
     h = run_harness(ctx, drv, sp, tp, argv)
